@@ -78,6 +78,44 @@ def mixed_types_cases(chk, rng, w):
     return cases
 
 
+def mixed_sub(chk, rng, w, wid, t1, t2, plan=None, related=False):
+    """the same for a world program: (steps, judge(obs))"""
+    s1 = rng.choice([u.sym for u in w.units_of(t1)])
+    s2 = rng.choice([u.sym for u in w.units_of(t2)])
+    a = Q(num(rand_fraction(rng, small=True)), s1)
+    b = Q(num(rand_fraction(rng, small=True)), s2)
+    steps = [{"id": "a", "e": a}, {"id": "b", "e": b}]
+    for op in ["+", "-"] + ORDER_OPS + ["==", "!="]:
+        steps.append({"k": op, "e": OP(op, V("a"), V("b"))})
+
+    def judge(obs):
+        if not obs:
+            chk.inconclusive_because("mixed-type case not observed")
+            return
+        chk.case((wid, "mixed", t1, t2, s1, s2))
+        chk.count("mixed types in worlds")
+        if related:
+            chk.count("a subclass mixed with its parent type")
+        wit = dict(obs=obs, steps=steps, world=wid)
+        if plan is not None:
+            wit["declarations"] = plan
+        for op in ["+", "-"] + ORDER_OPS:
+            if not is_exc(obs.get(op), "IncompatibleUnitsError"):
+                chk.violation("%s: %s (%s) %s %s (%s): expected "
+                              "IncompatibleUnitsError, got %s" %
+                              (wid, t1, s1, op, t2, s2, brief(obs.get(op))),
+                              wit, "mixed-types")
+                return
+        for op, want in (("==", False), ("!=", True)):
+            r = obs.get(op, {})
+            if r.get("k") != "bool" or r["v"] is not want:
+                chk.violation("%s: %s (%s) %s %s (%s): expected %s, got %s" %
+                              (wid, t1, s1, op, t2, s2, want, brief(r)), wit,
+                              "mixed-types-eq")
+                return
+    return steps, judge
+
+
 def number_cases(chk, rng, w):
     cases = []
     for t in w.types:
@@ -248,6 +286,7 @@ def run(chk, R, tier, seed):
     chk.require("same-type triples")
     chk.require("quantized type")
     chk.require("worlds")
+    chk.require("a subclass mixed with its parent type")
     w = predefined_world({"EUR": 2, "JPY": 0})
     prelude = [{"e": M(["g", "quantity.money:Money"], "register_currency",
                        ["s", c])} for c in ("EUR", "JPY")]
@@ -265,6 +304,25 @@ def run(chk, R, tier, seed):
         planj = [d.to_json() for d in plan]
         subs = [same_type_sub(chk, rng, ww, "world%d" % wi, planj)
                 for _ in range(15)]
+        # different types of the world mixed; a subclass that has a
+        # reference unit of its own is another type than its parent
+        fam = [(d.p["name"], d.p["parent"]) for d in plan
+               if d.kind == "subclass" and d.p.get("ref")]
+        withu = [t for t in ww.types if ww.units_of(t)]
+        for j in range(5):
+            if fam and j < 3:
+                t1, t2 = rng.choice(fam)
+                if j % 2:
+                    t1, t2 = t2, t1
+            elif len(withu) >= 2:
+                t1, t2 = rng.sample(withu, 2)
+            else:
+                continue
+            if t1 == t2 or not ww.units_of(t1) or not ww.units_of(t2):
+                continue
+            subs.append(mixed_sub(chk, rng, ww, "world%d" % wi, t1, t2,
+                                  planj, related=(t1, t2) in fam or
+                                  (t2, t1) in fam))
         cases.append(world_program(chk, plan, subs, "world%d" % wi))
     run_cases(chk, R, cases, preload=("quantity",))
     # money of two currencies inside an active converter: then EUR and USD
